@@ -603,6 +603,9 @@ func c20List(t *testing.T, run *Run, bin string, sc c20Scenario, rng *rand.Rand)
 			if rng.IntN(3) == 0 || forceTLS {
 				s.tls = true
 				args = append(args, "--tls", "--tls-certificate-path", fix+"/cert.pem", "--tls-private-key-path", fix+"/key.pem")
+			} else if i%3 == 1 {
+				// certificate files named, TLS not asked for: the service is deployed without TLS
+				args = append(args, "--tls-certificate-path", fix+"/cert.pem", "--tls-private-key-path", fix+"/key.pem")
 			}
 			out, code := u.CLI(args...)
 			if code != 0 {
